@@ -498,6 +498,44 @@ def _base_locals(body, prov, op):
     return prov.bases(p["l"]) if p else set()
 
 
+def rule_lock_value_in_range(ctx, facts, prefix="C01-R8"):
+    """The scan result is max+1 by a checked add, so it is >= 1; the other start value, the number held in the
+    lock, is whatever the file says. It must be tested for 0 before it can become the counter's start: in the
+    lock reader (the `Some` return lies only on the non-zero side of the test), in the driver (test / `max` with a
+    constant >= 1), or by type (`NonZeroU32`)."""
+    from ..common import zero_tests
+    r = edit.anchor(ctx, facts, prefix, r"Context::read_cached_next_reference_id$", "lock reader")
+    g = edit.anchor(ctx, facts, prefix, edit.GENERATE, "generate_code")
+    if r is None or g is None:
+        return
+    ways = []
+    if "NonZero" in (r.local_ty(0) or ""):
+        ways.append("the lock value's type excludes 0 (%s)" % r.local_ty(0))
+    prov = Prov(r)
+    somes = [(bb, st) for (bb, st) in return_values(r) if st["rv"]["k"] == "agg" and st["rv"].get("variant") == "Some"]
+    zts = [z for z in zero_tests(r, prov, lambda o: o[0] == "call" and o[1].matches(r"^serde_yaml::from_str$")) if z[1] is not None]
+    if somes and zts:
+        guarded = True
+        for (bb, _st) in somes:
+            if not any(bb not in cfg.reach(r, [z[1]]) and bb in cfg.reach(r, [z[2]]) for z in zts):
+                guarded = False
+        if guarded:
+            ways.append("the lock reader returns `Some` only on the non-zero side of `%s` (%s)" % (zts[0][3], r.where(zts[0][0])))
+    gp = Prov(g)
+    for c in g.calls_to(r"atomic::Atomic::<u32>::new$"):
+        for z in zero_tests(g, gp, lambda o: o == ("param", 1)):
+            if z[1] is not None and c.bb not in cfg.reach(g, [z[1]]):
+                ways.append("the driver tests the lock value with `%s` before using it (%s)" % (z[3], g.where(z[0])))
+        for o in gp.origins_op(c.args[0]):
+            if o[0] == "call" and o[1].matches(r"(cmp::max|Ord>::max|::max)$") and len(o[1].args) == 2:
+                ks = [op_const(a) for a in o[1].args]
+                if any(k is not None and (k.get("int") or 0) >= 1 for k in ks):
+                    ways.append("the driver raises the start value to a constant >= 1 with `max` (%s)" % o[1].where())
+    ctx.check(bool(ways), prefix, "lock-value-zero", "a lock holding `next_reference_id: 0` cannot make the run insert ID 0: %s" %
+              ("; ".join(ways) if ways else "found no test of the parsed value against 0 in the lock reader or the driver, and its type admits 0"),
+              r.where())
+
+
 def run(ctx):
     facts = ctx.bin
     rule_ids_from_counter(ctx, facts)
@@ -507,6 +545,7 @@ def run(ctx):
     rule_scan_reduce(ctx, facts)
     rule_checked_arithmetic(ctx, facts)
     rule_same_inputs(ctx, facts)
+    rule_lock_value_in_range(ctx, facts)
     from .finder import rule_parse_complete
     rule_parse_complete(ctx, facts, "C01-R7")
     rule_file_list_immutable(ctx, facts, "C01-R7")
